@@ -470,6 +470,14 @@ hist! {
             assert!(i4 != i1 && i4 != i2 && i4 != i3, "C05.HIST-ID-FRESH: ids are not reused after a removal");
             deliver(a);
             assert!(log_is(&[PREV3, 2, 3, 4]), "C02.HIST-ORDER: a later registration runs last");
+            // removal of the NEWEST id, then another registration: the id must not come back (a counter derived from the
+            // live ids would hand it out again: seed C02d)
+            assert!(unregister(i4), "C05.HIST-UNREG: unregister of a live id returns true");
+            let i5 = register_sigaction(a, act(5)).unwrap();
+            assert!(i5 != i4 && i5 != i3 && i5 != i2 && i5 != i1, "C05.HIST-ID-FRESH: the id of a removed action is never handed out again, also when it was the newest one");
+            assert!(!unregister(i4), "C05.HIST-UNREG: the stale id stays dead after a later registration");
+            deliver(a);
+            assert!(log_is(&[PREV3, 2, 3, 5]), "C02.HIST-ORDER: the stale id removed nothing; the newest registration runs last");
             assert!(lm::N_SIGACTION == 2, "C05.HIST-INSTALL-ONCE: the handler is installed once (query + install) for the whole history");
         }
     }
